@@ -7,6 +7,7 @@ import (
 	"reflect"
 	"sort"
 	"strings"
+	"time"
 	"unsafe"
 )
 
@@ -62,6 +63,8 @@ type ConcResult struct {
 	Races       []string       `json:"races"`
 	Deadlocks   int            `json:"deadlocks"`
 	DeadlockEx  []string       `json:"deadlockEx"`
+	Skipped     string         `json:"skipped,omitempty"`
+	Stuck       []string       `json:"stuck"` // a goroutine that never reached its next gate: blocked outside the mock's locks (reproduced twice)
 	HeldAtCb    []string       `json:"heldAtCb"`
 	Fatal       []string       `json:"fatal"`
 	ForeignG    int            `json:"foreignG"`
@@ -268,6 +271,7 @@ func (r *concRunner) body(g *G) {
 		return
 	}
 	r.realG[g] = goid()
+	g.goid = r.realG[g]
 	for g.pc = 0; g.pc < len(g.prog); g.pc++ {
 		op := &g.prog[g.pc]
 		g.curOp = op
@@ -432,11 +436,47 @@ func (r *concRunner) impl(x string, ft reflect.Type) func([]reflect.Value) []ref
 	}
 }
 
+// stuckLimit: a logical goroutine executes a handful of instructions between two
+// gates; one that has not parked again after this long is blocked on something
+// the scheduler does not control (a WaitGroup, a channel, a busy loop).
+const stuckLimit = 4 * time.Second
+
+type stuckError struct{ what string }
+
+func (e *stuckError) Error() string { return e.what }
+
+// resumeG lets g run to its next gate; false if it never gets there.
+func (r *concRunner) resumeG(g *G) bool {
+	g.resume <- struct{}{}
+	select {
+	case <-r.s.toSched:
+		return true
+	case <-time.After(stuckLimit):
+		g.stuck = true
+		abandon(g.goid)
+		return false
+	}
+}
+
+func (r *concRunner) stuckAt(g *G) string {
+	op := "?"
+	if g.curOp != nil {
+		op = g.curOp.Op + " " + g.curOp.M
+		if len(g.curOp.Cb) > 0 {
+			op += " [" + strings.Join(g.curOp.Cb, " ") + "]"
+		}
+	}
+	return fmt.Sprintf("goroutine %d in operation %q passed gate %s and never reached another one (%s): it waits for something that is not one of the mock's locks", g.id, op, gateNames[g.at.kind], stuckLimit)
+}
+
 // abortRun unwinds every logical goroutine that is still parked.
 func (r *concRunner) abortRun() {
 	s := r.s
 	s.abort = true
 	for _, g := range s.gs {
+		if g.stuck {
+			continue // it will never park again; it is abandoned with its mock
+		}
 		if !g.done {
 			g.resume <- struct{}{}
 			for {
@@ -618,8 +658,11 @@ func (r *concRunner) runOnce(choices []int, visited map[string]bool, byID []int)
 		s.apply(g)
 		r.res.Steps++
 		s.cur = g
-		g.resume <- struct{}{}
-		<-s.toSched
+		if !r.resumeG(g) {
+			what := r.stuckAt(g)
+			r.abortRun()
+			return ns, false, &stuckError{what}
+		}
 	}
 }
 
@@ -706,6 +749,18 @@ func runConc(job *ConcJob) *ConcResult {
 			choices[i] = f.chosen
 		}
 		ns, pruned, err := r.runOnce(choices, visited, nil)
+		if se, ok := err.(*stuckError); ok {
+			// the same schedule once more on a fresh mock: a verdict needs a reproduction
+			// (the first part of the choices is what led there; the rest is first-enabled)
+			_, _, err2 := r.runOnce(choices, map[string]bool{}, nil)
+			if _, again := err2.(*stuckError); again {
+				res.Stuck = append(res.Stuck, se.what)
+			} else {
+				res.Infra = "a goroutine was stuck once and not on the repetition (machine under load?): " + se.what
+			}
+			res.Exhaustive = false
+			return res
+		}
 		if err != nil {
 			res.Infra = err.Error()
 			return res
@@ -797,20 +852,37 @@ func (r *concRunner) runRandom(ch []int) {
 		g := en[ch[step%len(ch)]%len(en)]
 		s.apply(g)
 		s.cur = g
-		g.resume <- struct{}{}
-		<-s.toSched
+		if !r.resumeG(g) {
+			r.abortRun()
+			return
+		}
 	}
 }
 
 func init() {
 	extraModes["sched"] = func(args []string) {
 		// one scenario at a time: the scheduler is a process-wide singleton
+		stuckSeen := map[string]int{}
 		runJobs(args[0], 1, func(raw []byte) any {
 			var j ConcJob
 			if err := json.Unmarshal(raw, &j); err != nil {
 				return &ConcResult{Infra: err.Error()}
 			}
-			return runConc(&j)
+			// mocks of one variant (flag combination and destination) come from one run of the
+			// template: after two reproduced blockages in a variant the witnesses are reported and
+			// further scenarios on that variant would only spend the time limits again
+			variant := j.Mock
+			if i := strings.Index(variant, "/"); i >= 0 {
+				variant = variant[:i]
+			}
+			if stuckSeen[variant] >= 2 {
+				return &ConcResult{Mock: j.Mock, Scenario: j.Scenario, Skipped: "variant blocked in two earlier scenarios", Histories: map[string]int{}}
+			}
+			res := runConc(&j)
+			if len(res.Stuck) > 0 {
+				stuckSeen[variant]++
+			}
+			return res
 		})
 	}
 }
